@@ -329,6 +329,7 @@ func runC01(r *core.Run) {
 			return core.Outcome{Class: c.Layout, Nontrivial: c.Len >= 2, Evals: 3}
 		})
 
+	nilFieldsFasta(r)
 	interleavedReadersFor(r, []string{"fasta"})
 	consumerMutatesRecords(r, []string{"fasta"})
 	bigFiles(r, "fasta", []int{0})
